@@ -347,6 +347,9 @@ impl Property for C05 {
         ]
     }
     fn cases(&self, tier: Tier) -> u32 {
+        if std::env::var("VERIF_FUZZ_ONLY").is_ok() {
+            return 16;
+        }
         tier.pick(200_000, 6_000_000)
     }
     fn strategy(&self, _tier: Tier) -> BoxedStrategy<RawText> {
@@ -375,8 +378,12 @@ impl Property for C05 {
         }
     }
     fn extra_stages(&self, tier: Tier, seed: u64, stats: &mut Stats) -> Option<Failure> {
-        if let Some(f) = enumerate_exhaustive(tier.pick(5, 6), stats) {
-            return Some(f);
+        // VERIF_FUZZ_ONLY=1 (development aid): skip the other stages to exercise the fuzz stage alone
+        let fuzz_only = std::env::var("VERIF_FUZZ_ONLY").is_ok();
+        if !fuzz_only {
+            if let Some(f) = enumerate_exhaustive(tier.pick(5, 6), stats) {
+                return Some(f);
+            }
         }
         if tier == Tier::Thorough {
             // stage C: coverage-guided fuzzing on raw bytes, same oracle inside the target
